@@ -5,7 +5,7 @@ Import ListNotations.
 Open Scope Z_scope.
 
 Definition err_code (e : err) : Z :=
-  match e with OOB => 1 | OutOfFuel => 2 | ValueError => 3 | TypeError => 4 | OverflowError => 5 end.
+  match e with OOB => 1 | OutOfFuel => 2 | ValueError => 3 | TypeError => 4 | OverflowError => 5 | IndexError => 6 end.
 Definition vres {A} (f : A -> val) (r : res A) : val :=
   match r with Ok a => vok (f a) | Error e => verr (err_code e) end.
 Definition vZs (l : list Z) : val := VL (map VI l).
